@@ -50,7 +50,8 @@ ILLTYPED = [("type", Num("5")), ("type", [Num("1")]), ("type", None), ("items", 
             ("dependencies", Obj([("a", Num("1"))])), ("$ref", Num("1")), ("$ref", "::bad"), ("$ref", "#%zz"), ("$id", "#frag"), ("$id", "::"),
             ("pattern", "("), ("patternProperties", Obj([("[", True)])), ("$defs", Obj([("x", None)])), ("not", None), ("if", []),
             ("uniqueItems", "yes"), ("$vocabulary", Obj([("v", Num("1"))])), ("dependentRequired", Obj([("a", "b")])),
-            ("$dynamicRef", "#nosuch"), ("$schema", Num("7")), ("additionalProperties", None), ("prefixItems", Obj()), ("default", None)]
+            ("$dynamicRef", "#nosuch"), ("$dynamicRef", "#"), ("$dynamicRef", "#/properties"), ("$dynamicRef", "#/definitions/d0"),
+            ("$dynamicRef", "#/$defs/d0"), ("maxLength", Num("4294967296.0")), ("minItems", Num("2147483648.0")), ("minLength", Num("1e10")), ("$schema", Num("7")), ("additionalProperties", None), ("prefixItems", Obj()), ("default", None)]
 
 
 def graph(rng, fields):
@@ -85,6 +86,7 @@ def gen(rng, tier, n):
         r = rng.random()
         if r < 0.2:
             c = gs.Ctx(rng, rng.choice(["2020", "7"]), depth=2, refs=False)
+            c.wild_ints = True
             doc = gs.gen_document(c)
             text = to_text(doc)
             ops.append({"op": "unmarshal-bytes", "args": {"text": mutate_bytes(rng, text) if rng.random() < 0.8 else text}, "meta": {}})
